@@ -104,6 +104,7 @@ func (s *PacketServer) Serve(conn net.PacketConn) error {
 	}
 
 	s.listeners[conn]++
+	s.activeAdd()
 	s.mu.Unlock()
 	verifPoint("serve.registered")
 
@@ -117,7 +118,6 @@ func (s *PacketServer) Serve(conn net.PacketConn) error {
 		requests     = map[requestKey]struct{}{}
 	)
 
-	s.activeAdd()
 	defer func() {
 		s.mu.Lock()
 		s.listeners[conn]--
